@@ -655,6 +655,8 @@ class Interp:
                 # static helper of the same class: NameSanitizer.sanitize_module_name(x) -> summarised by caller
                 if name in self.consts and callable(self.consts[name]):  # type: ignore[arg-type]
                     return self.consts[name](self.ev(e.args[0], env))  # type: ignore[operator]
+            if name in self.consts and callable(self.consts[name]) and len(e.args) == 1:  # a summarised module-level helper
+                return self.consts[name](self.ev(e.args[0], env))  # type: ignore[operator]
             raise Unsupported(f"call {norm(e)[:70]}")
         raise Unsupported(f"expression {type(e).__name__}: {norm(e)[:60]}")
 
